@@ -172,8 +172,16 @@ func RecoverMain(args []string) int {
 	<-done
 	buf.Destroy()
 	m := vmetrics.Gather(mf)
+	filesLeft := 0
+	_ = filepath.Walk(*dir, func(p string, info os.FileInfo, err error) error {
+		if err == nil && info.Mode().IsRegular() && matchChunkID(filepath.Base(p)) {
+			filesLeft++
+		}
+		return nil
+	})
 	emitJSON("RecoveryDone", "dropped", int(m["cfr_dropped_chunks_total{storage=hybridBuffer}"]),
-		"ioErrors", int(m["cfr_io_errors_total{storage=hybridBuffer}"]), "consumed", int(m["cfr_consumed_chunks_total{storage=hybridBuffer}"]))
+		"ioErrors", int(m["cfr_io_errors_total{storage=hybridBuffer}"]), "consumed", int(m["cfr_consumed_chunks_total{storage=hybridBuffer}"]),
+		"persistentChunks", int(m["cfr_persistent_chunks{storage=hybridBuffer}"]), "pending", int(m["cfr_pending_chunks{storage=hybridBuffer}"]), "filesLeft", filesLeft)
 	return 0
 }
 
